@@ -17,7 +17,7 @@ from ..ropt_util import outcome_of
 from ..transforms_util import make_transforms
 
 INF = float("inf")
-POINTS = {1: [1.0, 2.0], 2: [3.0, 1.0]}          # optimizer-domain points
+POINTS = {1: [1.0, 2.0], 2: [3.0, 1.0], 3: [1.0 * (1 + 4e-6), 2.0 * (1 + 4e-6)]}   # optimizer-domain points; 3 is "near 1"
 SCALE, OFFSET = [2.0, 4.0], [1.0, -1.0]
 
 
@@ -64,6 +64,7 @@ class LabelEvaluator:
         self.R, self.memo, self.garbage, self.nanreal = cfg["R"], cfg["memo"], garbage, nanreal
         self.calls = []            # per call: dict(labels, uvars, active)
         self.memo_store = {}
+        self.buffers = []
         self.owned = []            # (name, object/array, pristine copy, holder, attr)
 
     def __call__(self, variables, context):
@@ -86,7 +87,7 @@ class LabelEvaluator:
             act = np.vstack([ao, ac]).astype(bool)
         self.calls.append({"labels": labels, "uvars": variables.copy(), "active": act})
         sig = (n, perts is None, tuple(map(tuple, labels)))
-        if self.memo != "fresh" and sig in self.memo_store:
+        if self.memo in ("arrays", "object") and sig in self.memo_store:
             stored = self.memo_store[sig]
             return stored if self.memo == "object" else EvaluatorResult(objectives=stored.objectives, constraints=stored.constraints,
                                                                        evaluation_info=stored.evaluation_info)
@@ -100,13 +101,19 @@ class LabelEvaluator:
             for i, (b, r, p) in enumerate(labels):
                 if r == self.nanreal and p == 0:
                     vals[i, 0] = np.nan
-        res = EvaluatorResult(objectives=vals[:, :2].copy(), constraints=vals[:, 2:].copy(),
-                              evaluation_info={"tag": np.array([code(b, r, p, 0) for b, r, p in labels], dtype=np.float64)})
+        objs, cons = vals[:, :2].copy(), vals[:, 2:].copy()
+        tag = np.array([code(b, r, p, 0) for b, r, p in labels], dtype=np.float64)
+        if self.memo == "roviews":          # the evaluator hands out read-only views of buffers it keeps re-using
+            self.buffers += [objs, cons, tag]
+            objs, cons, tag = objs.view(), cons.view(), tag.view()
+            for a in (objs, cons, tag):
+                a.flags.writeable = False
+        res = EvaluatorResult(objectives=objs, constraints=cons, evaluation_info={"tag": tag})
         k = len(self.calls)
         self.owned += [(f"call{k}.objectives", res.objectives, res.objectives.copy(), res, "objectives"),
                        (f"call{k}.constraints", res.constraints, res.constraints.copy(), res, "constraints"),
                        (f"call{k}.info", res.evaluation_info["tag"], res.evaluation_info["tag"].copy(), None, None)]
-        if self.memo != "fresh":
+        if self.memo in ("arrays", "object"):
             self.memo_store[sig] = res
         return res
 
@@ -150,7 +157,7 @@ def run(sc, garbage):
             has_f = any(p == 0 for _, _, p in labels); has_g = any(p > 0 for _, _, p in labels)
             e["reqkind"] = "FG" if has_f and has_g else "F" if has_f else "G"
             e["labels"] = labels
-            e["uvars"] = nums(c["uvars"], exact=True)
+            e["uvars"] = nums(c["uvars"], exact=(pt != 3))
             e["active"] = [] if c["active"] is None else [[bool(v) for v in row] for row in c["active"]]
             fr = [r for r in res if isinstance(r, FunctionResults)]
             gr = next((r for r in res if isinstance(r, GradientResults)), None)
@@ -161,9 +168,9 @@ def run(sc, garbage):
             for b, r, p in labels:
                 try:
                     if p == 0:
-                        ovars.append(nums(fr[b - 1].evaluations.variables, exact=True))
+                        ovars.append(nums(fr[b - 1].evaluations.variables, exact=(pt != 3)))
                     else:
-                        ovars.append(nums(gr.evaluations.perturbed_variables[r - 1, p - 1], exact=True))
+                        ovars.append(nums(gr.evaluations.perturbed_variables[r - 1, p - 1], exact=(pt != 3)))
                 except (IndexError, AttributeError):       # a label that addresses no reported row
                     ovars.append([num(None), num(None)])
             e["ovars"] = ovars
@@ -210,6 +217,8 @@ def run(sc, garbage):
             arr[...] = -12345.0
         except ValueError:
             pass
+    for buf in ev.buffers:
+        buf[...] = -12345.0
     changed = [i for i, (r, h) in enumerate(snapshots) if _snap(r) != h]
     events.append({"ev": "Snap", "changed": changed})
     return events, sigs
@@ -276,7 +285,7 @@ def extra_scenarios(tier, seed):
     """The same call sequences with one realization failing (NaN in an objective of the unperturbed row)."""
     rng = np.random.default_rng(seed)
     out = []
-    kinds = [{"k": "F", "pt": 1, "batch": 1}, {"k": "G", "pt": 1, "batch": 1}, {"k": "FG", "pt": 2, "batch": 1},
+    kinds = [{"k": "F", "pt": 1, "batch": 1}, {"k": "G", "pt": 1, "batch": 1}, {"k": "FG", "pt": 2, "batch": 1}, {"k": "G", "pt": 3, "batch": 1},
              {"k": "F", "pt": 1, "batch": 2}, {"k": "G", "pt": 2, "batch": 1}]
     for _ in range(150 if tier == "quick" else 1500):
         R = int(rng.integers(2, 5))
@@ -286,7 +295,7 @@ def extra_scenarios(tier, seed):
         calls = [kinds[int(i)] for i in rng.integers(0, len(kinds), int(rng.integers(1, 4)))]
         out.append({"cfg": {"R": R, "P": int(rng.integers(1, 4)), "rw": rw,
                             "filt": ["none", "sortobj", "cvarobj", "cononly", "conmixed"][int(rng.integers(5))],
-                            "tf": bool(rng.integers(2)), "memo": ["fresh", "arrays", "object"][int(rng.integers(3))]},
+                            "tf": bool(rng.integers(2)), "memo": ["fresh", "arrays", "object", "roviews"][int(rng.integers(4))]},
                     "calls": calls, "nanreal": int(rng.integers(0, R + 1))})
     return out
 
